@@ -48,6 +48,10 @@ def variant_font(rng, nglyphs):
         plats.append((0, 3, 0))
     if rng.random() < 0.3:
         plats.append((3, 1, 1036))
+    if rng.random() < 0.25:
+        plats.append((1, 1, 11))        # Macintosh / Japanese: a non-English family name on its own platform-encoding pair
+    if rng.random() < 0.15:
+        plats.append((3, 1, 0x0411))
     extra_names = {}
     if rng.random() < 0.3:
         extra_names[16] = "PrefFam"
